@@ -36,7 +36,8 @@ def sdk_dirs():
         shutil.copytree(os.path.join(M.VERIF, 'sdk'), dst, ignore=shutil.ignore_patterns('target', 'Cargo.lock'))
         for sub in ('mirror', 'replay'):
             ct = os.path.join(dst, sub, 'Cargo.toml')
-            open(ct, 'w').write(open(ct).read().replace('/repo/', M.REPO + '/'))
+            txt = open(ct).read().replace('/repo/', M.REPO + '/')
+            open(ct, 'w').write(txt)
     return os.path.join(dst, 'mirror'), os.path.join(dst, 'replay')
 
 
